@@ -135,12 +135,65 @@ def _run_hypothesis(sc, n, seed, matchers, shrink=True, fresh_k=None):
     return stats, failures, harness
 
 
+# ------------------------------------------------------------------------------------------------ other environments
+# The statements quantify over arguments, not over the process the library happens to run in: they hold under `python -O`, with
+# another hash seed, in another time zone / locale, with numpy's error state and print options set by the application, from
+# another working directory.  Every check therefore repeats a slice of its generated exploration in child interpreters started
+# that way (sub-check names "<name>@env:<environment>").  Each environment is something a user may legitimately have and that the
+# unchanged library is indifferent to; a failing case records its environment and --replay re-creates it.
+
+_ENUM_LIMIT = [None]
+
+
+def environments(seed):
+    hs = 1 + (seed * 7919 + 13) % 4000000000
+    return {
+        "optimised": {"flags": ["-O"], "inproc": False,
+                      "env": {"PYTHONHASHSEED": str(hs), "TZ": "Pacific/Kiritimati", "LC_ALL": "C", "LANG": "C", "PYTHONUTF8": "0",
+                              "PYTHONCOERCECLOCALE": "0"},
+                      "what": "python -O (no assert statements, __debug__ False), hash seed %d, TZ=Pacific/Kiritimati (UTC+14), C locale "
+                              "without UTF-8 coercion" % hs},
+        "application-state": {"flags": [], "inproc": True,
+                              "env": {"PYTHONHASHSEED": str(hs + 1), "TZ": "America/Anchorage"},
+                              "what": "hash seed %d, TZ=America/Anchorage, numpy print options set by the application (precision=3, "
+                                      "suppress, legacy='1.25'), decimal context prec=6 / ROUND_DOWN, thread switch interval 10 us, umask 077"
+                                      % (hs + 1)},
+    }
+
+
+def _apply_environment(name):
+    """In-process part of an environment (the interpreter flags and variables were set by whoever started this process)."""
+    if name == "application-state":
+        import decimal
+        import numpy as np
+        np.set_printoptions(precision=3, suppress=True, threshold=5, legacy="1.25")
+        # the application's decimal arithmetic (a report with six significant digits, truncating): thread-local, so also the
+        # template new threads start from
+        for ctx in (decimal.getcontext(), decimal.DefaultContext):
+            ctx.prec = 6
+            ctx.rounding = decimal.ROUND_DOWN
+        sys.setswitchinterval(1e-5)
+        os.umask(0o077)
+
+
+def _spawn_environment(name, spec, argv, extra_env):
+    import subprocess
+    env = dict(os.environ)
+    env.update(spec["env"])
+    env.update(extra_env)
+    env["GVP_ENV_CHILD"] = name
+    return subprocess.Popen([sys.executable] + spec["flags"] + ["-m", "gvp.runner"] + argv, env=env, cwd=HERE,
+                            stdout=subprocess.PIPE, stderr=subprocess.STDOUT, text=True)
+
+
 def _run_enumeration(sc, tier, seed, shard, nshards, matchers):
     stats = Stats()
     failures = {}
     harness = None
     try:
         for case in sc.enumerate(tier, seed, shard, nshards):
+            if _ENUM_LIMIT[0] is not None and stats.evaluations + stats.discarded >= _ENUM_LIMIT[0]:
+                break
             skip = False
             for m in matchers:
                 if m(case):
@@ -275,6 +328,20 @@ def _write_replay(prop, rec, seed, tier):
 
 
 def replay(prop, path):
+    with open(path) as fh:
+        rec0 = json.load(fh)
+    ename = rec0.get("environment")
+    if ename and os.environ.get("GVP_ENV_CHILD") != ename:
+        # the case failed in another environment: re-create it (same interpreter flags and variables) and replay there
+        spec = environments(int(rec0.get("seed", 1))).get(ename)
+        if spec is None:
+            raise HarnessError("replay file names an unknown environment %r" % ename)
+        proc = _spawn_environment(ename, spec, [prop, "--replay", os.path.abspath(path)], {})
+        log, _ = proc.communicate()
+        sys.stdout.write(log)
+        return proc.returncode
+    if ename:
+        _apply_environment(ename)
     module = _load(prop)
     if hasattr(module, "selftest"):
         module.selftest()
@@ -390,6 +457,20 @@ def run(prop, tier, seed):
     if only:
         subchecks = [s for s in subchecks if s.name in only.split(",")]
     scale = float(os.environ.get("VERIF_SCALE", "1"))
+    envchild = os.environ.get("GVP_ENV_CHILD")
+    children = []
+    if envchild:
+        _apply_environment(envchild)
+        scale *= 0.12 if tier == "quick" else 0.04
+        _ENUM_LIMIT[0] = getattr(module, "ENV_ENUM_LIMIT", (200, 3000))[0 if tier == "quick" else 1]
+        if hasattr(module, "ENV_ONLY"):
+            subchecks = [s for s in subchecks if s.name in module.ENV_ONLY]
+    elif os.environ.get("VERIF_ENVIRONMENTS", "1") != "0":
+        import tempfile
+        for ename, spec in environments(seed).items():
+            fd, outp = tempfile.mkstemp(prefix="gvp_env_", suffix=".json")
+            os.close(fd)
+            children.append((ename, spec, outp, _spawn_environment(ename, spec, [prop, tier], {"GVP_ENV_OUT": outp, "VERIF_JOBS": "8"})))
 
     ctx0 = multiprocessing.get_context("fork")
     with ctx0.Pool(1, maxtasksperchild=1) as pool0:
@@ -407,7 +488,7 @@ def run(prop, tier, seed):
             salt = zlib.crc32(sc.name.encode()) % 1000003
             tasks.append((prop, sc.name, tier, per, (seed * 1000 + k) * 1000003 + salt, k, nsh, active_by_sub.get(sc.name, [])))
         fr = getattr(sc, "fresh", None)
-        if fr and sc.strategy is not None:
+        if fr and sc.strategy is not None and not envchild:
             # additional tiny tasks, each in a process of its own that has made no library call yet: results that depend on what
             # the FIRST call of a process was (lazily initialised module state) are only visible this way
             nfr, per_fr = (fr[0], fr[2]) if tier == "quick" else (fr[1], fr[2])
@@ -461,6 +542,46 @@ def run(prop, tier, seed):
             seen_b.add(key)
             violations.append((None, frec))
 
+    if envchild:
+        # a child of the environment pass: hand everything to the parent, which reports
+        out = {"per_sub": {k: dict(v, nontrivial=sorted(v["nontrivial"])) for k, v in per_sub.items()},
+               "violations": [rec for _, rec in violations], "harness_errors": harness_errors}
+        with open(os.environ["GVP_ENV_OUT"], "w") as fh:
+            json.dump(jsonable(out), fh)
+        return 0
+    for ename, spec, outp, proc in children:
+        try:
+            log, _ = proc.communicate(timeout=7200)
+            with open(outp) as fh:
+                res = json.load(fh)
+        except Exception as e:  # noqa
+            harness_errors.append("environment %s: child produced no result (%s: %s)" % (ename, type(e).__name__, e))
+            try:
+                proc.kill()
+            except Exception:  # noqa
+                pass
+            continue
+        finally:
+            try:
+                os.unlink(outp)
+            except OSError:
+                pass
+        for k, v in res["per_sub"].items():
+            v["nontrivial"] = set(v["nontrivial"])
+            mm = {}
+            for mk, mv in v.get("metrics", {}).items():
+                try:
+                    mm[mk] = float(mv)           # (non-finite values travel as strings)
+                except (TypeError, ValueError):
+                    pass
+            v["metrics"] = mm
+            per_sub["%s@env:%s" % (k, ename)] = v
+        harness_errors.extend("environment %s: %s" % (ename, h) for h in res["harness_errors"])
+        for rec in res["violations"]:
+            rec["environment"] = ename
+            rec["what"] = "%s [in the environment '%s': %s]" % (rec["what"], ename, spec["what"])
+            violations.append((None, rec))
+
     # one VIOLATION per (sub-check, bucket)
     printed = set()
     nviol = 0
@@ -490,7 +611,9 @@ def run(prop, tier, seed):
             samples.append({"subcheck": name, "case": smp})
         subs[name] = {"evaluations": d["evaluations"], "distinct_nontrivial": len(d["nontrivial"]),
                       "rule": sc.rule + (" | @fresh: the same relation in processes that have made no library call before their first case "
-                                         "(one short call sequence per process)" if "@" in name else ""),
+                                         "(one short call sequence per process)" if "@fresh" in name else "")
+                                      + (" | @env: a slice of the same exploration in a child interpreter started as: "
+                                         + environments(seed)[name.split("@env:")[1]]["what"] if "@env:" in name else ""),
                       "classes": dict(sorted(d["classes"].items())), "discarded_outside_domain": d["discarded"],
                       "excluded_known": d["excluded_known"],
                       "exhaustive": bool("@" not in name and sc.exhaustive and (tier == "thorough" or sc.exhaustive == "both")),
